@@ -86,7 +86,7 @@ def tight_cases(rng, n):
     # on the way (a None written and taken back), dates that a datetime write promotes in place, dict cells replaced by a
     # dict with the same keys, -0.0 / 0.0
     for _ in range(n // 3):
-        kind = rng.choice(["str", "date", "dict", "zero"])
+        kind = rng.choice(["str", "date", "dict", "zero", "nested"])
         rows = rng.randint(2, 5)
         i = rng.randrange(rows)
         if kind == "str":
@@ -100,6 +100,12 @@ def tight_cases(rng, n):
             col = [{"id": k, "qty": 10 * k} for k in range(rows)]
             writes = rng.choice([[[i, {"id": i, "qty": 99}]], [[i, {"id": i, "qty": 10 * i, "x": 1}]],
                                  [[i, col[(i + 1) % rows]], [(i + 1) % rows, col[i]]]])
+        elif kind == "nested":
+            # a RAGGED vector of vectors (not a table): an inner vector is written through its own handle
+            cs.append({"op": "tight", "kind": "nested", "cols": [[rng.randrange(9) for _ in range(rng.randint(1, 4))] for _ in range(rows)],
+                       "col": rng.randrange(rows), "via": "inner", "writes": [[0, rng.randrange(60, 99)] for _ in range(rng.choice([1, 2]))],
+                       "fp_first": rng.random() < 0.9})
+            continue
         else:
             col = [0.0, 1.5, -0.0, 2.0, 0.0][:rows]
             writes = [[i, -0.0 if col[i] == 0.0 and str(col[i]) == "0.0" else 0.0]]
@@ -124,6 +130,23 @@ def _observe_tight(case):
     cols, j, via = case["cols"], case["col"], case["via"]
     cols = [[_dv(x) for x in c] for c in cols]
     case = dict(case, writes=[[i, _dv(x)] for i, x in case["writes"]])
+    if via == "inner":
+        import warnings
+        with warnings.catch_warnings():
+            warnings.simplefilter("ignore")
+            if len({len(c) for c in cols}) == 1:
+                cols[0] = cols[0] + [0]                       # make it ragged: equal lengths would be a Table
+            inner = [Vector(list(c)) for c in cols]
+            obj = Vector(inner)
+            before = obj.fingerprint() if case["fp_first"] else None
+            start = [[repr(x) for x in c] for c in cols]
+            for i, x in case["writes"]:
+                inner[j][i] = x
+            after = obj.fingerprint()
+            contents = [[repr(x) for x in c._underlying] for c in inner]
+            fresh = Vector([Vector(list(c._underlying)) for c in inner])
+            return {"before": before, "after": after, "fresh": fresh.fingerprint(), "contents": contents,
+                    "again": obj.fingerprint(), "start": start}
     if via == "vector":
         obj = Vector(list(cols[j]), name="a")
         target = obj
@@ -205,7 +228,7 @@ def oracle(case, obs):
                 f"gives {obs['fresh']}")
     if obs["again"] != obs["after"]:
         return f"C16-unstable: {what}: a second call returned {obs['again']} after {obs['after']}"
-    if case.get("kind") in ("str", "date", "dict") and obs["before"] is not None and obs["start"] != obs["contents"] \
+    if case.get("kind") in ("str", "date", "dict", "nested") and obs["before"] is not None and obs["start"] != obs["contents"] \
             and obs["before"] == obs["after"]:
         return (f"C16-insensitive: {what}: the contents went from {obs['start']} to {obs['contents']} but the fingerprint "
                 f"stayed {obs['after']}")
